@@ -382,7 +382,7 @@ def rule_numbers(ck, facts, lang):
                 tmpl.append(("to_string", None))
         for x in tmpl:
             sites.append((f, x))
-    ck.floor(R, "float_literal_formatting_sites", len(sites), 4)
+    ck.floor(R, "float_literal_formatting_sites", len(sites), 1)  # one shared helper is as good as many sites
     templates = {}
     for f, (kind, txt) in sites:
         templates.setdefault((kind, txt), []).append(f)
